@@ -8,6 +8,7 @@ import (
 	"os/exec"
 	"path/filepath"
 	"runtime/debug"
+	"strconv"
 	"strings"
 	"time"
 )
@@ -24,6 +25,19 @@ func init() {
 		// a runaway recursion should die quickly, not after Go's default 1 GB stack
 		debug.SetMaxStack(96 << 20)
 	}
+}
+
+// a child gives every case its own wall-clock limit and exits with code 77 when a case
+// exceeds it (the runtime preempts tight loops, so the timer fires)
+func caseWatchdog() *time.Timer {
+	if !childMode {
+		return nil
+	}
+	ms, err := strconv.Atoi(os.Getenv("VERIF_CASE_MS"))
+	if err != nil || ms <= 0 {
+		return nil
+	}
+	return time.AfterFunc(time.Duration(ms)*time.Millisecond, func() { os.Exit(77) })
 }
 
 type isoResult struct {
@@ -56,14 +70,19 @@ func runIsolated(prop string, cases []caseT, perCase time.Duration, workdir stri
 		must(w.Flush())
 		f.Close()
 		n := len(cases) - start
-		ctx, cancel := context.WithTimeout(context.Background(), perCase*time.Duration(n)+10*time.Second)
+		// the child limits each case itself (exit 77); the batch limit is only a backstop
+		batchLimit := perCase*time.Duration(n)/4 + 2*perCase + 30*time.Second
+		ctx, cancel := context.WithTimeout(context.Background(), batchLimit)
 		cmd := exec.CommandContext(ctx, os.Args[0], "-prop", prop, "-replay", in, "-out", outDir)
-		cmd.Env = append(os.Environ(), "VERIF_CHILD=1", "GOTRACEBACK=none", "GORACE=halt_on_error=1 exitcode=66")
+		cmd.Env = append(os.Environ(), "VERIF_CHILD=1", fmt.Sprintf("VERIF_CASE_MS=%d", perCase.Milliseconds()), "GOTRACEBACK=none", "GORACE=halt_on_error=1 exitcode=66")
 		var stderr tailBuffer
 		cmd.Stderr = &stderr
 		cmd.Stdout = nil
 		runErr := cmd.Run()
 		timedOut := ctx.Err() == context.DeadlineExceeded
+		if ee, ok := runErr.(*exec.ExitError); ok && ee.ExitCode() == 77 {
+			timedOut = true
+		}
 		cancel()
 		// the child flushes impl.tsv / rejects after every case (childMode)
 		done := 0
